@@ -14,7 +14,7 @@ TYPES = {'usize': 2**64 - 1, 'u8': 2**8 - 1, 'u16': 2**16 - 1, 'u32': 2**32 - 1,
 FORMS = ['v', 'r', 'a', 'ar']
 INT_OPS = ['%s_%s_%s' % (d, t, f) for d in ('shl', 'shr') for t in TYPES for f in FORMS]
 UINT_OPS = ['%s_%s' % (d, f) for d in ('shlU', 'shrU') for f in FORMS]
-RULE = ('corpus, then exhaustive value x amount (0..bits+64*LIMBS+1) at widths 0..5 (0..6 thorough) for the 10 methods and a '
+RULE = ('corpus, then exhaustive value x amount (0..bits+64*LIMBS+1) at widths 0..5 (0..7 thorough) for the 10 methods and a '
         'rotating operator overload, then structured cases over 37 widths: amounts 0,1,63,64,65,64j+-1,BITS-1,BITS,BITS+1,64*LIMBS,'
         '64*LIMBS+1,random,huge; values from the shared classes plus values whose set bits leave through whole-limb moves or the '
         'top-limb mask and values landing on the flag boundary (x*2^s = 2^bits, 2^bits-1.., x = 2^s, 2^s+-1, 2^(s-1)); every integer '
@@ -156,8 +156,8 @@ def uint_amount(rng, bits):
 
 
 def gen(rng, tier):
-    n = 60000 if tier == 'quick' else 2000000
-    exh = 5 if tier == 'quick' else 6
+    n = 60000 if tier == 'quick' else 5000000
+    exh = 5 if tier == 'quick' else 7
     rot = 0
     for bits in range(0, exh + 1):
         top = bits + 64 * nlimbs(bits) + 2
@@ -210,3 +210,31 @@ def finding_tag(case, impl, model, spec):
     if op.startswith('shlU_') or op.startswith('shrU_'):
         return 'uint-amount-reads-low-limb-only'
     return None
+
+
+def extra_checks(tier, rng, findings):
+    """thorough tier: re-run the corpus and a quick-size sample against the harness built with the
+    release profile (debug assertions and overflow checks off: `<<`/`>>` amounts wrap instead of panicking,
+    `debug_assert!`s vanish), compare with model and spec again."""
+    if tier != 'thorough':
+        return {}
+    import os
+    import random
+    import vlib
+    binpath, secs = vlib.build_harness(BIN, release=True)
+    drv = os.path.join(vlib.LEAN, '.lake', 'build', 'bin', DRV)
+    cases = []
+    cpath = os.path.join(vlib.ROOT, 'corpus', 'C05.cases')
+    if os.path.exists(cpath):
+        cases += [l.strip() for l in open(cpath) if l.strip() and not l.startswith('#')]
+    cases += list(gen(random.Random(rng.getrandbits(32)), 'quick'))
+    impl, _ = vlib.run_impl(binpath, cases)
+    ms = vlib.run_model(drv, cases, impl)
+    viol = []
+    for c, i, (m, s) in zip(cases, impl, ms):
+        k = vlib.classify(c, i, m, s)
+        if k:
+            viol.append(('impl-violation' if k == 'model-error' else k, c + '   [release profile]', i, m, s))
+    return {'violations': viol,
+            'coverage': {'release_profile': {'cases': len(cases), 'mismatches': len(viol), 'build_s': round(secs, 1),
+                                             'profile': 'release: opt-level=2, debug-assertions=off, overflow-checks=off'}}}
